@@ -237,7 +237,12 @@ type WaitArgs struct {
 // s_waitcnt vmcnt(1) before using a and vmcnt(0) before using b, loads the
 // scalar K with s_load_dword / lgkmcnt(0), and stores out[gid] = a*5 + b + K.
 // A wait count that lets a dependant through early makes it read a sentinel.
-func WaitCount(wgSize int) (*insts.KernelCodeObject, []string, error) {
+//
+// late > 0 adds a second phase after the store: a scalar register pre-set to a
+// sentinel is loaded with N by a late s_load_dword behind s_waitcnt lgkmcnt(0)
+// (late = 1: after waiting for the store with vmcnt(0); late = 2: with the
+// store still in flight), added, and out[gid] is stored again: a*5 + b + K + N.
+func WaitCount(wgSize int, late int) (*insts.KernelCodeObject, []string, error) {
 	p := New()
 	p.SLoadDwordX4(8, 0, 0)   // s[8:9] = in, s[10:11] = out
 	p.SLoadDwordX2(20, 0, 16) // s20 = K, s21 = N
@@ -264,6 +269,16 @@ func WaitCount(wgSize int) (*insts.KernelCodeObject, []string, error) {
 	p.VAddU32(7, S(10), 4)
 	p.VAddcU32(8, Imm(0), 8)
 	p.FlatStoreDword(7, 12)
+	if late > 0 {
+		if late == 1 {
+			p.SWaitcnt(0, 15)
+		}
+		p.SMovB32(S(22), p.Lit(0x00c0de00))
+		p.SLoadDword(22, 0, 20)
+		p.SWaitcnt(15, 0)
+		p.VAddU32(12, S(22), 12)
+		p.FlatStoreDword(7, 12)
+	}
 	p.SWaitcnt(0, 0)
 	p.SEndpgm()
 	co, err := p.CodeObject(KernelSpec{KernargBytes: 24, SGPRs: 24, VGPRs: 16, WGIDX: true})
@@ -298,8 +313,12 @@ type RandArgs struct {
 // wait counts, and stores 4 result dwords. Work-items never touch each other's
 // records. The result is whatever the emulator computes: the program is meant
 // for differential (emulation vs timing) comparison.
-func RandomProgram(d Drawer, wgSize int) (*insts.KernelCodeObject, []string, error) {
+func RandomProgram(d Drawer, wgSize int, v5 bool) (*insts.KernelCodeObject, []string, error) {
 	p := New()
+	p.Gfx9 = v5
+	if v5 {
+		p.VAndB32(0, p.Lit(0x3ff), 0) // V5 convention: ids packed in v0
+	}
 	p.SLoadDwordX4(8, 0, 0)   // s[8:9] = in, s[10:11] = out
 	p.SLoadDwordX4(20, 0, 16) // s[20:23] = K
 	p.SMulI32(S(12), S(2), p.Lit(uint32(wgSize)))
@@ -454,7 +473,7 @@ func RandomProgram(d Drawer, wgSize int) (*insts.KernelCodeObject, []string, err
 	}
 	p.SWaitcnt(0, 0)
 	p.SEndpgm()
-	co, err := p.CodeObject(KernelSpec{KernargBytes: 32, SGPRs: 32, VGPRs: 24, WGIDX: true})
+	co, err := p.CodeObject(KernelSpec{KernargBytes: 32, SGPRs: 32, VGPRs: 24, WGIDX: true, V5: v5})
 	return co, p.Listing(), err
 }
 
